@@ -12,11 +12,12 @@
   key|rechunk|shape|inchunks|copychunks|out     -> (F:out (I K:a0:.. ...))      (also merge_chunks)
   key|index|inchunks|tcs;..|sel;..|out          -> (F:out (I K:a0:.. ...))      sel items  s:start:stop:step | i:v | a:v.v.v
   key|concat|axis|lens|oshape|ochunks|inchunks;..|out -> (F:out (I K:a<i>:.. ...))
-  accepts|scan|s|nb                             -> true | false
+  accepts|scan|s|nb   accepts|stack|shape;shape;..   -> true | false
+  util|scanreduced|s|nb                         -> declared chunk sizes of scan's per-block totals
   util|unravel|off|dims   util|ravel|coords|dims   util|getitem|n|c|b   util|chunks|n|c   (cubed/utils.py helpers)
   eval|repeat1|n|c|r   eval|flip1|n|c   eval|rechunk1|n|c|tc   eval|index1|n|c|start|stop|step
   eval|concat1|lens|c  eval|tree|nb|k|d   eval|scaninc|s|nb
-  eval|stack|axis|shape0;shape1..|cs0;cs1..|outshape   eval|unstack|shape|cs|axis|m|outshape
+  eval|stack|axis|shape0;shape1..|cs0;cs1..|outshape (stackUnified: inputs rechunked to cs0)   eval|unstack|shape|cs|axis|m|outshape
        -> comma separated values (`x` = the task fails)
 -/
 import CubedModel.Model.Proto
@@ -123,7 +124,7 @@ def handleEval (parts : List String) : String :=
     let shapes := parseLists shapes; let css := parseLists css
     let A : Nat → List Nat → Nat := fun k idx => k * 1000 + ravel idx (shapes.getD k [])
     showVals ((indexSpace (parseNats oshape)).map
-      (stackEval A (fun k => shapes.getD k []) (fun k => css.getD k []) (nat1 axis)))
+      (stackUnified A (shapes.getD 0 []) (fun k => css.getD k []) (nat1 axis)))
   | ["unstack", shape, cs, axis, m, oshape] =>
     let shape := parseNats shape; let cs := parseNats cs; let axis := nat1 axis
     let A : List Nat → Nat := fun idx => ravel idx shape
@@ -137,6 +138,7 @@ def handleUtil (parts : List String) : String :=
   | ["ravel", coords, dims] => toString (ravel (parseNats coords) (parseNats dims))
   | ["getitem", n, c, b] => let r := getItem (chunksOf (nat1 n) (nat1 c)) (nat1 b); s!"{r.1},{r.2}"
   | ["chunks", n, c] => showNats (chunksOf (nat1 n) (nat1 c))
+  | ["scanreduced", s, nb] => showNats (scanReducedSizes (nat1 s) (nat1 nb))
   | _ => "bad-request"
 
 def handle (line : String) : String :=
@@ -145,6 +147,7 @@ def handle (line : String) : String :=
   | "key" :: rest => handleKey rest
   | "eval" :: rest => handleEval rest
   | ["accepts", "scan", s, nb] => toString (scanAccepts (nat1 s) (nat1 nb))
+  | ["accepts", "stack", shapes] => toString (stackAccepts (parseLists shapes))
   | _ => "bad-request"
 
 def main : IO Unit := runDriver handle
